@@ -21,7 +21,10 @@ keys and duplicate field keys; libraries built in code, by the parser, parsed in
 instances; equal-but-distinct blocks; blocks whose start lines are out of order; reused and reconfigured middleware
 and format objects; the same call repeated after tampering with its result; stacks of 0-3 shipped middlewares in
 any order in both in-place modes; files with BOMs, encodings, duck-typed file objects; @string blocks named like
-values, keys or month names; macro chains and cycles.
+values, keys or month names; macro chains and cycles; libraries edited through add/remove/replace/re-keying before
+use; documents parsed in pieces into one library under different stacks; pairs of names related by case, Unicode
+normalisation, prefix; arguments that are the object's own stored parts; k = 2..1000 repetitions of a feature in
+one value; a third shipped middleware between two others; `@type( ... )` blocks; probes overriding transform_block.
 So a change that any of those would expose at once is of little interest.  Think about what ELSE a realistic
 maintenance change could depend on: a combination of two features, an option value nobody sets, a specific
 position (first/last/only block or field), a relation between two items (equal, prefix, case variant, same
